@@ -59,7 +59,9 @@ def main(argv=None):
     results = runner.run_units(f"pdv.contracts.{prop}", units, tier, jobs=args.jobs)
     # units with undecided proof obligations are re-run once with little parallelism (solver budgets are
     # wall-clock; a busy machine must not turn a provable obligation into UNDECIDED)
-    retry = [r["unit"] for r in results if any(o["kind"] != "cover" and o["status"] == "unknown" for o in r["results"])]
+    # ... and a counter-model found in a weakened theory (ground instances of abstraction axioms) is re-examined too
+    retry = [r["unit"] for r in results if any(o["kind"] != "cover" and (o["status"] == "unknown" or (o["status"] == "refuted" and o.get("weak_theory")))
+                                               for o in r["results"])]
     if retry:
         again = {r["unit"]: r for r in runner.run_units(f"pdv.contracts.{prop}", retry, tier, jobs=min(4, len(retry)))}
         results = [again.get(r["unit"], r) if r["unit"] in again and not again[r["unit"]]["error"] else r for r in results]
@@ -120,6 +122,7 @@ def main(argv=None):
     # ---- violations: refuted obligations and failed bounded checks
     violations = []
     known_lines = []
+    downgraded = []
     os.makedirs(os.path.join(os.environ.get("PDV_REPLAY_DIR", os.path.join(VERIF, "replays")), prop), exist_ok=True)
     for o in refuted:
         kf = runner.match_known(prop, o["name"], findings)
@@ -132,8 +135,17 @@ def main(argv=None):
                 rep = mod.replay(o)
             except Exception as e:
                 rep = {"reproduced": None, "error": f"{type(e).__name__}: {e}"}
+        if o.get("weak_theory") and not (rep or {}).get("reproduced"):
+            # counter-model of the weakened theory that the real code does not reproduce: undecided, not a violation
+            _write_replay(prop, o, rep)
+            undecided.append((o["name"], "counter-model-of-weakened-theory-not-reproduced",
+                              "the solver's model satisfies only the instantiated axioms of an abstraction and the native replay matched the contract", ""))
+            unknown.append(o)
+            downgraded.append(o)
+            continue
         path = _write_replay(prop, o, rep)
         violations.append((o, rep, path))
+    refuted = [o for o in refuted if not any(o is d for d in downgraded)]
     for b in bounded:
         for fail in b.get("failures", []):
             nm = f"bounded/{b['name']}/{fail.get('id', '')}"
